@@ -95,6 +95,10 @@ var DefaultCoercers = struct {
 			}
 			return convVal, nil
 		case float64:
+			// int(v) is only defined for values that fit: reject NaN, Inf and anything beyond the int range
+			if !(v >= -9223372036854775808.0 && v < 9223372036854775808.0) {
+				return nil, fmt.Errorf("failed to coerce float to int: %v is out of range", v)
+			}
 			return int(v), nil
 		case bool:
 			if v {
